@@ -36,6 +36,18 @@ CLAIMED = {
               "double-slash-terminated and table-collection keywords are not re-laid-out."),
         technique="TLC model checking of the rewrite system + TLC-generated behaviours replayed into the real Parser with TLC's Meaning as oracle",
     ),
+    "C02": dict(
+        category="model_checking",
+        text=("Units.tla: each unit system's base units as terms over physical constants; every measure and named dimension a product "
+              "of powers of base quantities (the compositional law), offsets only for the relative temperature.  TLC emits the factor "
+              "/ offset terms for all 4 x 46 (system, measure) pairs and all composite dimension strings of the shipped keyword "
+              "definitions; harness/units evaluates them and compares UnitSystem::to_si / from_si (scalar and array overloads), "
+              "getDimension and parse; a physical model written as a deck in the four unit systems must give the same SI values."),
+        design_ref="DESIGN.md section 5, C02",
+        note=("Trusted: TLC, the long double term interpreter, the physical constants listed in the evidence.  Output-file conversion is "
+              "observed through the array overloads only; schedule / table values in several unit systems are exercised by C06 and C09."),
+        technique="TLC oracle (dimension algebra over physical constants) against UnitSystem, exhaustive over systems x measures x dimension strings",
+    ),
     "C03": dict(
         category="model_checking",
         text=("Schedule.tla generates SCHEDULE inputs (blocks of abstract keywords with their prerequisites; TLC checks "
